@@ -236,7 +236,11 @@ func RunC15(s *Scenario, ev *Evidence, trace bool) (viol []Finding, tr []string)
 }
 
 func c15PerCase(rt *rapid.T, s *Scenario, ev *Evidence) []Finding {
-	viol, _ := RunC15(s, ev, false)
+	wantTrace := ev.Evaluations < 2
+	viol, tr := RunC15(s, ev, wantTrace)
+	if wantTrace && len(viol) == 0 && len(tr) > 0 {
+		ev.Sample(map[string]interface{}{"export_after_block": len(s.Blocks) * 2 / 3, "history": tr}, 3)
+	}
 	known := LoadedKnown()
 	var out []Finding
 	for _, f := range viol {
